@@ -44,7 +44,28 @@ type Obs struct {
 	Located bool   `json:"located"`
 }
 
-var locRe = regexp.MustCompile(`rules\.go:[0-9]+`)
+// an error is located when it names a line of the rules file: rules.go:<n> with 1 <= n <= number of lines
+func namesLine(msg string, src []byte) bool {
+	m := lineRe.FindStringSubmatch(msg)
+	if m == nil {
+		return false
+	}
+	n, err := strconv.Atoi(m[1])
+	return err == nil && n >= 1 && n <= bytes.Count(src, []byte("\n"))+1
+}
+
+// spanProblem: the line the error names lies in the construct the file was built around ("" = it does, or there is no located error)
+func spanProblem(o Obs, lo, hi int) string {
+	if o.Kind != "error" || !o.Located {
+		return ""
+	}
+	m := lineRe.FindStringSubmatch(o.Err)
+	n, _ := strconv.Atoi(m[1])
+	if n < lo || n > hi {
+		return fmt.Sprintf("the error names line %d; the construct that is wrong (or unsupported) stands on lines %d..%d", n, lo, hi)
+	}
+	return ""
+}
 
 const importFlake = "could not import github.com/quasilyte/go-ruleguard/dsl"
 
@@ -80,7 +101,7 @@ func loadObs1(fset *token.FileSet, src []byte, limit time.Duration) (*ruleguard.
 		e := ruleguard.NewEngine()
 		err := e.Load(&ruleguard.LoadContext{Fset: fset}, "rules.go", strings.NewReader(string(src)))
 		if err != nil {
-			r = res{nil, Obs{Kind: "error", Err: err.Error(), Located: locRe.MatchString(err.Error())}}
+			r = res{nil, Obs{Kind: "error", Err: err.Error(), Located: namesLine(err.Error(), []byte(src))}}
 		} else {
 			r = res{e, Obs{Kind: "ok"}}
 		}
@@ -568,6 +589,32 @@ var notDSL = []string{
 	"func g(m dsl.Matcher) { m.Match(`$x + $y`).Where(4 < m[`x`].Type.Size).Report(`x`) }",
 	"func g(m dsl.Matcher) { m.Match(`$x + $y`).Where(4 == m[`x`].Type.Size && \"a\" != m[`x`].Text).Report(`x`) }",
 	"func g(m dsl.Matcher) { m.Match(`$x + $y`).Where(m[`x`].Line == m[`y`].Type.Size).Report(`x`) }",
+	// a local helper named like something else that is in scope where it is defined, calling that
+	"func f(v dsl.Var) bool { return v.Pure }\nfunc g(m dsl.Matcher) { f := func(v dsl.Var) bool { return f(v) }; m.Match(`$x + $y`).Where(f(m[`x`])).Report(`x`) }",
+	"func f(s string) bool { return s == `` }\nfunc g(m dsl.Matcher) { f := func(v dsl.Var) bool { return f(`a`) && v.Pure }; m.Match(`$x + $y`).Where(f(m[`x`])).Report(`x`) }",
+	"func f(s string) bool { return s == `` }\nfunc g(m dsl.Matcher) { h := func(v dsl.Var) bool { return f(`a`) && v.Pure }; f := func(s string) bool { return m[`x`].Text.Matches(s) }; m.Match(`$x + $y`).Where(h(m[`x`]) && f(`a`)).Report(`x`) }",
+	"func f(v dsl.Var) bool { return true }\nfunc h(v dsl.Var) bool { return true }\nfunc g(m dsl.Matcher) { f := func(v dsl.Var) bool { return h(v) }; h := func(v dsl.Var) bool { return f(v) }; m.Match(`$x + $y`).Where(h(m[`x`])).Report(`x`) }",
+	"func f(v dsl.Var) bool { return true }\nfunc h(v dsl.Var) bool { return true }\nfunc g(m dsl.Matcher) { h := func(v dsl.Var) bool { return f(v) }; f := func(v dsl.Var) bool { return h(v) }; m.Match(`$x + $y`).Where(f(m[`x`])).Report(`x`) }",
+	"func g(m dsl.Matcher) { var f func(dsl.Var) bool; h := func(v dsl.Var) bool { return f(v) }; f := func(v dsl.Var) bool { return h(v) }; m.Match(`$x + $y`).Where(f(m[`x`])).Report(`x`) }",
+	"func g(m dsl.Matcher) { len := func(v dsl.Var) bool { return len(`a`) == 1 && v.Pure }; m.Match(`$x + $y`).Where(len(m[`x`])).Report(`x`) }",
+	"func g(m dsl.Matcher) { g := func(v dsl.Var) bool { return v.Pure }; m.Match(`$x + $y`).Where(g(m[`x`])).Report(`x`) }",
+	"func g(m dsl.Matcher) { string := func(v dsl.Var) bool { return v.Pure }; m.Match(`$x + $y`).Where(string(m[`x`])).Report(`x`) }",
+	"type T struct{}\nfunc g(m dsl.Matcher) { T := func(v dsl.Var) bool { return v.Type.Is(`T`) }; m.Match(`$x + $y`).Where(T(m[`x`])).Report(`x`) }",
+	"func g(m dsl.Matcher) { dsl := func(v dsl.Var) bool { return v.Pure }; m.Match(`$x + $y`).Where(dsl(m[`x`])).Report(`x`) }",
+	"func g(m dsl.Matcher) { f := func(pred func(dsl.Var) bool, v dsl.Var) bool { return pred(v) }; p := func(v dsl.Var) bool { return v.Pure }; m.Match(`$x + $y`).Where(f(p, m[`x`])).Report(`x`) }",
+	"func g(m dsl.Matcher) { f := func(f func(dsl.Var) bool, v dsl.Var) bool { return f(v) }; p := func(v dsl.Var) bool { return v.Pure }; m.Match(`$x + $y`).Where(f(p, m[`x`])).Report(`x`) }",
+	"func g(m dsl.Matcher) { f := func(pred func(dsl.Var) bool, v dsl.Var) bool { return pred(v) }; m.Match(`$x + $y`).Where(f(f, m[`x`])).Report(`x`) }",
+	"func g(m dsl.Matcher) { f := func(pred func(dsl.Var) bool, v dsl.Var) bool { return pred(v) }; m.Match(`$x + $y`).Where(f(nil, m[`x`])).Report(`x`) }",
+	// functions without a body, init functions that do something else
+	"func nobody(n int) int\nfunc g(m dsl.Matcher) { m.Match(`$x + $y`).Report(`x`) }",
+	"func g(m dsl.Matcher)",
+	"func helper() {}\nfunc init() { helper() }",
+	"type T struct{}\nfunc (T) vm() {}\nfunc init() { T{}.vm() }",
+	"func init() { func() {}() }",
+	"func init() { dsl.ImportRules(`p`, dsl.Bundle{}); return }",
+	"func init() { go dsl.ImportRules(`p`, dsl.Bundle{}) }",
+	"var sv = `p`\nfunc init() { dsl.ImportRules(sv, dsl.Bundle{}) }",
+	"func init() { (dsl.ImportRules)(`p`, dsl.Bundle{}) }",
 	"func g(m dsl.Matcher) { m.MatchComment().Report(`x`) }",
 	"func g(m dsl.Matcher) { m.Match().Report(`x`) }",
 }
@@ -707,6 +754,8 @@ func irDiff(fset *token.FileSet, src []byte, d *RuleDesc) string {
 
 type Case struct {
 	Shift  string    `json:"shift,omitempty"` // the named line does not move with the source (see shiftProblem)
+	Span   string    `json:"span,omitempty"`  // the named line is not a line of the construct under test (see spanProblem)
+	What   string    `json:"what,omitempty"`  // fn / chain: the catalogue entry
 	Stream string    `json:"stream"`
 	ID     int       `json:"id"`
 	Src    string    `json:"src,omitempty"`
@@ -743,6 +792,9 @@ func main() {
 	repo := flag.String("repo", "/repo", "repository (fixture rules files)")
 	tmp := flag.String("tmp", "", "scratch directory")
 	nhist := flag.Int("hist", 60, "random cases of stream hist (the systematic ones are always run)")
+	nfn := flag.Int("fn", 30, "random cases of stream fn (the catalogues are always run)")
+	streams := flag.String("streams", "fn,chain,bytes,notdsl,dsl,hist,struct", "the streams to run (the check runs two halves side by side)")
+	one := flag.String("one", "", "development: load the rules files of this comma-separated list only (a file may hold several, separated by a line -----)")
 	ops := flag.String("ops", "", "the regenerated filter-op table (go2coq optable)")
 	child := flag.Bool("child", false, "internal: generate and load (run by the supervisor)")
 	skip := flag.Int("skip", 0, "internal: generate but do not load the cases up to this id")
@@ -751,7 +803,24 @@ func main() {
 		os.Exit(hutil.Supervise(os.Args[1:], crashCase))
 	}
 	hutil.ChildInit()
-	rng := rand.New(rand.NewSource(*seed))
+	// every stream draws from its own generator and numbers its cases from its own base: what a stream generates does not
+	// depend on which other streams run in this process
+	want := map[string]bool{}
+	for _, st := range strings.Split(*streams, ",") {
+		want[st] = true
+	}
+	streamIdx := map[string]int{"fn": 0, "chain": 1, "bytes": 2, "notdsl": 3, "dsl": 4, "hist": 5, "struct": 6}
+	var rng *rand.Rand
+	id := 0
+	enter := func(stream string) bool {
+		k, ok := streamIdx[stream]
+		if !ok || !want[stream] {
+			return false
+		}
+		rng = rand.New(rand.NewSource(*seed*7919 + int64(k)))
+		id = k * 100000
+		return true
+	}
 	if *ops != "" {
 		if err := loadOpTable(*ops); err != nil {
 			fmt.Fprintln(os.Stderr, "c06:", err)
@@ -773,7 +842,6 @@ func main() {
 		fmt.Fprintln(os.Stderr, err)
 		os.Exit(3)
 	}
-	id := 0
 	// begin reports whether the case is to be executed; the announcement reaches the supervisor before Load starts
 	begin := func(stream string, src string) bool {
 		id++
@@ -797,7 +865,7 @@ func main() {
 				}
 			}()
 		}
-		if !full && c.Obs.Kind != "panic" && c.Obs.Kind != "timeout" && (c.Obs.Kind == "ok" || c.Obs.Located) && c.Run == "" && c.NilRep == 0 && c.Shift == "" {
+		if !full && c.Obs.Kind != "panic" && c.Obs.Kind != "timeout" && (c.Obs.Kind == "ok" || c.Obs.Located) && c.Run == "" && c.NilRep == 0 && c.Shift == "" && c.Span == "" {
 			c.Src = ""
 		}
 		enc.Encode(c)
@@ -817,6 +885,46 @@ func main() {
 		}
 	}
 
+	if *one != "" {
+		for _, p := range strings.Split(*one, ",") {
+			b, err := os.ReadFile(p)
+			if err != nil {
+				fmt.Fprintln(os.Stderr, err)
+				os.Exit(3)
+			}
+			for _, src := range strings.Split(string(b), "\n-----\n") {
+				if !begin("one", src) {
+					continue
+				}
+				c := Case{Stream: "one", ID: id, Src: src}
+				_, c.Obs = loadObs(t.Fset, []byte(src))
+				c.Shift = shiftProblem(t.Fset, []byte(src), c.Obs)
+				emit(c, true)
+			}
+		}
+		return
+	}
+	// ---- fn, chain: fixed catalogues first (the cheapest way to a failing input), a few random combinations
+	spanStream := func(stream string, files []spanFile) {
+		for i, f := range files {
+			if !begin(stream, f.src) {
+				continue
+			}
+			c := Case{Stream: stream, ID: id, Src: f.src, What: f.what}
+			_, c.Obs = loadObs(t.Fset, []byte(f.src))
+			c.Span = spanProblem(c.Obs, f.lo, f.hi)
+			if (i+int(*seed))%8 == 0 {
+				c.Shift = shiftProblem(t.Fset, []byte(f.src), c.Obs)
+			}
+			emit(c, false)
+		}
+	}
+	if enter("fn") {
+		spanStream("fn", fnFiles(*seed, rng, *nfn))
+	}
+	if enter("chain") {
+		spanStream("chain", chainFiles(*seed))
+	}
 	// ---- bytes
 	var fixtures [][]byte
 	globs := []string{"analyzer/testdata/src/*/rules.go", "rules/*.go", "analyzer/testdata/src/*/rules*.go"}
@@ -833,6 +941,9 @@ func main() {
 				fixtures = append(fixtures, b)
 			}
 		}
+	}
+	if !enter("bytes") {
+		*nbytes = 0
 	}
 	for i := 0; i < *nbytes; i++ {
 		var src []byte
@@ -855,7 +966,11 @@ func main() {
 		emit(c, false)
 	}
 	// ---- notdsl
-	for _, body := range notDSL {
+	catalogue := notDSL
+	if !enter("notdsl") {
+		catalogue = nil
+	}
+	for _, body := range catalogue {
 		src := "package gorules\n\nimport \"github.com/quasilyte/go-ruleguard/dsl\"\n\nvar _ dsl.Matcher\n\n" + body + "\n"
 		if strings.HasPrefix(body, "import ") {
 			src = "package gorules\n\nimport \"github.com/quasilyte/go-ruleguard/dsl\"\n" + body + "\n"
@@ -877,6 +992,9 @@ func main() {
 	if err != nil {
 		fmt.Fprintln(os.Stderr, "c06:", err)
 		os.Exit(3)
+	}
+	if !enter("dsl") {
+		probes, *ndsl = nil, 0
 	}
 	for i := 0; i < len(probes)+*ndsl; i++ {
 		var d RuleDesc
@@ -903,6 +1021,9 @@ func main() {
 	}
 	// ---- hist
 	nbad := nSystematic()
+	if !enter("hist") {
+		nbad, *nhist = 0, 0
+	}
 	lctx := func() *ruleguard.LoadContext { return &ruleguard.LoadContext{Fset: t.Fset} }
 	hung := 0
 	for i := 0; i < nbad+*nhist; i++ {
@@ -947,6 +1068,9 @@ func main() {
 		emit(c, true)
 	}
 	// ---- struct
+	if !enter("struct") {
+		*nstruct = 0
+	}
 	for i := 0; i < *nstruct; i++ {
 		src := genStructFile(rng)
 		if !begin("struct", src) {
